@@ -86,6 +86,16 @@ def check_assign(spec, ctx):
     if s0 < 0 or e0 > MAXC or s < 0:
         ctx.label("out_of_range")
         ctx.eq("out_of_range_bin", got, 1)
+        # the all-bins form of a range that starts in range but reaches past 2^29 still covers its in-range part
+        allb = bins(s, e, fmt=fmt, one=False)
+        ctx.true("all_bins_contains_bin_1", 1 in allb, sorted(allb)[:5])
+        if 0 <= s0 < MAXC and s >= 0:
+            ctx.label("out_of_range_on_the_right_only")
+            need = set()
+            for lvl, off in enumerate(OFFS):
+                sh = FIRST + NEXT * lvl
+                need.update(range(off + (s0 >> sh), off + ((MAXC - 1) >> sh) + 1))
+            ctx.true("all_bins_superset_of_overlapping(in-range part)", need <= set(allb), {"missing": sorted(need - set(allb))[:5]})
         return
     exp = ref_bin(s0, e0)
     # containment (safety half of the property): the assigned bin's extent contains the interval
@@ -98,6 +108,7 @@ def check_assign(spec, ctx):
         ctx.label("end_on_boundary")
     # all-bins form: contains the assigned bin and every bin whose extent overlaps the interval
     allb = bins(s, e, fmt=fmt, one=False)
+    ctx.true("all_bins_contains_bin_1", 1 in allb, sorted(allb)[:5])
     ctx.true("all_bins_contains_assigned", got in allb, {"assigned": got})
     ctx.true("all_bins_contains_smallest", exp in allb, {"smallest": exp})
     need = set()
@@ -184,7 +195,7 @@ def strat_never_hides(draw, tier="quick"):
 # "bin-based pre-filtering can never change the answer of a range query": a collection whose children are 1..6 bp long and sit
 # in the band +-3 around a bin boundary b, asked every range with both ends in b-4..b+4 (plus far ends), answers = brute force.
 
-def band_collection(b):
+def band_collection(b, anchors=True):
     """children of every shape in the band around b; two far anchors widen the collection's own bounds"""
     fcs, genes, vcs = [], [], []
     n = 0
@@ -210,6 +221,8 @@ def band_collection(b):
             continue
         vcs.append({"variants": [{"start": b + a, "end": b + a + 1, "sequence": "G", "variant_type": "SNV", "variant_id": "v%d" % i}],
                     "variant_collection_id": "vc%d" % i, "qualifiers": {}})
+    if not anchors:
+        return {"genes": genes, "feature_collections": fcs, "variant_collections": vcs, "name": "band", "qualifiers": {}}
     lo = max(0, b - 2 ** 18)
     hi = b + 2 ** 18
     if lo + 2 <= b - 4:
@@ -236,8 +249,18 @@ def result_ids(res):
 
 def check_prefilter(spec, ctx):
     b = spec["b"]
-    o = band_collection(b)
-    parent = Parent(id="chr1", sequence_type="chromosome") if spec.get("parent") == "id_only" else None
+    on_chunk = spec.get("parent") == "chunk"
+    o = band_collection(b, anchors=not on_chunk)
+    if on_chunk:
+        # (variant collections are left to the sequence-less modes: with a sequence they are also *applied* to the genes,
+        #  which is C13's subject and meets known finding F26 of C09)
+        o["variant_collections"] = []
+        # the same band seen through a sequence chunk [b-40, b+40) with a genomic offset: bins are chromosome-level answers
+        from inscripta.biocantor.io.parser import seq_chunk_to_parent
+        parent = seq_chunk_to_parent("ACGTTGCA" * 10, "chr1", b - 40, b + 40)
+        ctx.label("band_on_chunk")
+    else:
+        parent = Parent(id="chr1", sequence_type="chromosome") if spec.get("parent") == "id_only" else None
     coll = mkcollection(o, parent)
     spans = child_spans(o)
     # the bin stored on every child and grandchild at construction is the reference bin of its span
@@ -287,7 +310,9 @@ def enum_prefilter(tier, shard, nshards):
             if b == 0 or b in seen:
                 continue
             seen.add(b)
-            for parent in ("none", "id_only") if tier != "quick" or level == 0 else ("none",):
+            for parent in ("none", "id_only", "chunk") if tier != "quick" or level == 0 else ("none", "chunk"):
+                if parent == "chunk" and b < 40:
+                    continue
                 i += 1
                 if i % nshards == shard:
                     yield {"b": b, "level": level, "parent": parent}
@@ -298,14 +323,14 @@ def pred_end_on_boundary(spec, clause, detail):
     return e0 % (1 << FIRST) == 0
 
 
-EX_ASSIGN = [{"s": 0, "e": 131071, "fmt": "bed"}, {"s": 131071, "e": 131073, "fmt": "bed"}, {"s": 1, "e": 131071, "fmt": "gff"},
+EX_ASSIGN = [{"s": 0, "e": 2 ** 29 + 5, "fmt": "bed"}, {"s": 1, "e": 2 ** 29 + 1, "fmt": "gff"}, {"s": 0, "e": 2 ** 29, "fmt": "bed"}, {"s": 0, "e": 131071, "fmt": "bed"}, {"s": 131071, "e": 131073, "fmt": "bed"}, {"s": 1, "e": 131071, "fmt": "gff"},
              {"s": 2 ** 29 - 2, "e": 2 ** 29 - 1, "fmt": "bed"}, {"s": 2 ** 29, "e": 2 ** 29 + 5, "fmt": "bed"}, {"s": -1, "e": 4, "fmt": "bed"}]
 
 PROP = Prop(
     pid="C16",
     legs=[
         Leg("bands", check_assign, enumerate=enum_bands, exhaustive=True, shards_quick=16, shards_thorough=16, examples=EX_ASSIGN,
-            must_hit=["end_on_boundary", "out_of_range"],
+            must_hit=["end_on_boundary", "out_of_range", "out_of_range_on_the_right_only"],
             rule="for every level 2^17..2^29: a set of boundaries (first, second, last, evenly spread; all for the coarsest levels), all ordered pairs of boundaries, ALL (start,end) with both ends within +-3 of them, both coordinate conventions"),
         Leg("random_assign", check_assign, strategy=strat_random_assign, n_quick=3000, n_thorough=40000, shards_quick=4,
             rule="random (start,end) up to 2^30 incl. out-of-range, boundary-biased"),
@@ -313,8 +338,8 @@ PROP = Prop(
             must_hit=["contained", "overlapping"],
             rule="pairs (query range, interval) where the interval is contained in / cut on the left / cut on the right / contains the query; boundary-biased; bins(I, one=True) must be in bins(Q, one=False)"),
         Leg("prefilter_bands", check_prefilter, enumerate=enum_prefilter, exhaustive=True, shards_quick=16, shards_thorough=16,
-            must_hit=["prefilter_active_nonempty", "query_ends_one_past_boundary", "query_starts_one_before_boundary"],
-            rule="integrated: for boundaries of every level (incl. 2^29), a sequence-less AnnotationCollection holding features of EVERY span inside b-3..b+3, "
+            must_hit=["prefilter_active_nonempty", "query_ends_one_past_boundary", "query_starts_one_before_boundary", "band_on_chunk"],
+            rule="integrated: for boundaries of every level (incl. 2^29), an AnnotationCollection (sequence-less, or on a sequence chunk [b-40,b+40) with that genomic offset) holding features of EVERY span inside b-3..b+3, "
                  "1-2 bp genes (one with isoforms on either side of b), SNVs at b-1,b,b+1 and two far anchors; ALL query ranges with both ends in b-4..b+4 "
                  "plus ends 2^17 away and the collection bounds, completely_within on/off; answer = brute-force membership; stored .bin of every child = reference bin"),
     ],
